@@ -56,7 +56,8 @@ class Rec:
     def __init__(self):
         self.by_ctx = {}
         self.cur = None           # (CtxRec, manager id) of the constructor that is running
-        self.udp_fail = False
+        self.udp_fail = 0
+        self.tcp_fail = 0
         self.base_threads = set(_rt.enumerate())
         self.gate = None          # (position, predicate) for directed stop‖make schedules
         self.maker_ident = None
@@ -409,6 +410,8 @@ def taps():
 
     def mk_unreg(orig):
         def unregister_message_handler(self, h):
+            if isinstance(h, RpcObjectManager):
+                _gate("before_unregister")
             if isinstance(h, RpcObjectManager) and _rt.get_ident() != REC.maker_ident:
                 REC.flags["stop_unreg_seen"] = True
             orig(self, h)
@@ -449,8 +452,11 @@ def taps():
 
     def mk_bind(orig):
         def bind(self, addr):
-            if self.kind == "udp" and REC is not None and REC.udp_fail:
-                raise OSError(98, "Address already in use (injected, udp)")
+            # start-step faults of every exception kind, injected at the socket layer (START_EXC)
+            if REC is not None:
+                code = REC.udp_fail if self.kind == "udp" else (getattr(REC, "tcp_fail", 0) if addr[1] == PORT else 0)
+                if code:
+                    raise_start_fault(int(code), self.kind)
             return orig(self, addr)
         return bind
 
@@ -698,6 +704,21 @@ BUSY_BODIES = ("remote", "chain", "sleep", "signal")
 MODEL_RUNB = {b: "loop" for b in BUSY_BODIES + ("acting",)}   # harness-only task bodies -> the model's body (runs until stopped)
 
 
+START_EXC = {1: "OSError", 2: "OverflowError", 3: "ValueError", 4: "RuntimeError", 5: "QMI_RuntimeException",
+             6: "KeyboardInterrupt", 7: "SystemExit"}
+
+
+def raise_start_fault(code: int, what: str):
+    """a start step (bind of the TCP server / UDP responder socket) fails with an exception of kind `code`; whatever the class,
+    the model calls it OSError (the roll-back must not depend on the class)"""
+    from qmi.core.exceptions import QMI_RuntimeException
+    cls = {1: OSError, 2: OverflowError, 3: ValueError, 4: RuntimeError, 5: QMI_RuntimeException, 6: KeyboardInterrupt,
+           7: SystemExit}[code if code in START_EXC else 1]
+    e = cls(98, f"injected start fault ({what})") if cls is OSError else cls(f"injected start fault ({what})")
+    e._c12_mark = "start"
+    raise e
+
+
 def _exc_s(e: BaseException) -> str:
     # the injected exception, whatever its class, is what the model calls Boom (constructor) / BaseBoom (base stop handler)
     mark = getattr(e, "_c12_mark", None)
@@ -705,6 +726,8 @@ def _exc_s(e: BaseException) -> str:
         return "exc:Boom"
     if mark == "handler-base":
         return "exc:BaseBoom"
+    if mark == "start":
+        return "exc:OSError"
     return "exc:" + type(e).__name__
 
 
@@ -861,14 +884,13 @@ class Runner1:
             ctx.register_stop_handler(make_callable(shape, kind, core))
             return "ok"
         if k == "start":
-            net = self.w.net
-            net.busy_ports = {PORT} if op[1] else set()
-            REC.udp_fail = bool(op[2])
+            REC.tcp_fail = int(op[1])
+            REC.udp_fail = int(op[2])
             try:
                 ctx.start()
             finally:
-                net.busy_ports = set()
-                REC.udp_fail = False
+                REC.tcp_fail = 0
+                REC.udp_fail = 0
             return "ok"
         if k == "stop":
             ctx.stop()
@@ -979,7 +1001,7 @@ def op_line(op) -> str:
     if k == "addh":
         return f"addh {op[1]}"
     if k == "start":
-        return f"start {int(op[1])} {int(op[2])}"
+        return f"start {int(bool(op[1]))} {int(bool(op[2]))}"
     if k in ("stop", "removeForeign", "probe"):
         return k
     raise ValueError(op)
@@ -1070,7 +1092,7 @@ def qline(op) -> str:
     k = op[0]
     if k == "qstart":
         _, valid, cfg_tcp, tcpF, udpF, peers = op[:6]
-        return (f"qstart {int(valid)} {int(cfg_tcp)} {int(tcpF)} {int(udpF)} " + ("".join(str(int(b)) for b in peers) or "-") +
+        return (f"qstart {int(valid)} {int(cfg_tcp)} {int(bool(tcpF))} {int(bool(udpF))} " + ("".join(str(int(b)) for b in peers) or "-") +
                 f" {int(bool(op[6] if len(op) > 6 else 0))}")
     if k in ("qstop", "qcontext"):
         return k
@@ -1128,13 +1150,13 @@ def run_singleton(seed, ops, policy="weighted") -> Trace:
                 cfg["c1"]["tcp_server_port"] = PORT
             for i in range(len(peers)):
                 cfg[f"p{i}"] = {"host": "127.0.0.1", "tcp_server_port": PEER_PORT + i}
-            w.net.busy_ports = {PORT} if tcpF else set()
-            REC.udp_fail = bool(udpF)
+            REC.tcp_fail = int(tcpF)
+            REC.udp_fail = int(udpF)
             try:
                 qmi.start("c1" if valid else "bad ctx", init_logging=False, context_cfg=cfg)
             finally:
-                w.net.busy_ports = set()
-                REC.udp_fail = False
+                REC.tcp_fail = 0
+                REC.udp_fail = 0
 
         def qstart_logging(valid, cfg_tcp, logF):
             """qmi.start() with logging initialisation switched on and a logging configuration that cannot be applied
@@ -1691,6 +1713,119 @@ def oracle_acts(spec: dict, tr: Trace):
     return bad
 
 
+RX_SPECS = [{"other": o, "gate": g, "pop": pop}
+            for o in ("make", "make_instr", "remove", "get", "call")
+            for g in ("before_unregister", None)
+            for pop in ([], [["make", "task", 2, NAMES[2], 0, 1, "loop", 0], ["tstart", 2]])]
+
+
+def run_rx(seed, spec: dict, policy="weighted", change_points=None) -> Trace:
+    """remove_rpc_object(a) in one thread racing make / remove / get / call of the SAME name in another; optionally the remover is
+    parked between its first locked block and unregister_message_handler until the other thread is done (directed schedule);
+    line-level yield points in remove_rpc_object and _internal_make_rpc_object otherwise.  Oracle only."""
+    tr = Trace()
+    tr.obs_pending = ["rx", spec]
+
+    def body(w):
+        REC.world = w
+        r = Runner1(w, bool(seed % 2))
+        r.new()
+        ctx = r.ctx
+        rec = REC.of(ctx)
+        res = {"setup": [r.do(["start", 0, 0]), r.do(["make", "rpc", 1, "a", 0, int(seed % 3 == 0), "loop", 0])]}
+        for op in spec["pop"]:
+            res["setup"].append(r.do(op))
+        r2 = Runner1(w, r.cfg_tcp)
+        r2.ctx = ctx
+        other_done = {"v": False}
+        if spec["gate"]:
+            REC.gate = (spec["gate"], lambda: other_done["v"])
+
+        def remover():
+            REC.maker_ident = _rt.get_ident()      # the thread the gate applies to
+            return r.do(["remove", 1])
+
+        def other():
+            try:
+                o = spec["other"]
+                if o == "make":
+                    return r2.do(["make", "rpc", 1, "a", 0, 0, "loop", 0])
+                if o == "make_instr":
+                    return r2.do(["make", "instr", 1, "a", 0, 1, "loop", 0])
+                if o == "remove":
+                    return r2.do(["remove", 1])
+                if o == "get":
+                    return r2.do(["get", 1, "rpc"])
+                return r2.do(["call", 1])
+            finally:
+                other_done["v"] = True
+        t1 = w.spawn(remover, "maker")
+        if spec["gate"]:
+            # let the remover reach its gate before the other thread starts
+            w.sched.yield_point("c12.rx", blocked_on=lambda: REC.gate is None or _done_thread(t1))
+        t2 = w.spawn(other, "maker")
+        t1.join()
+        t2.join()
+        res["remove"] = t1.value if t1.exc is None else _exc_s(t1.exc)
+        res["other"] = t2.value if t2.exc is None else _exc_s(t2.exc)
+        res["mid"] = residue_s(ctx, rec) + stray_s()
+        res["stop"] = r.do(["stop"])
+        res["thr"] = thread_counts(rec)
+        res["end"] = residue_s(ctx, rec)
+        res["stray"] = stray_s()
+        res["constructed"] = sorted(mid for mid, _o in rec.objs) + [0]
+        res["relc"] = dict(rec.rel_count)
+        res["probe"] = r.probe()
+        return res
+
+    from qmi.core.context import QMI_Context
+    out = _run(seed, body, policy=policy, change_points=change_points, max_steps=60000,
+               trace_funcs=[] if spec["gate"] else [QMI_Context.remove_rpc_object, QMI_Context._internal_make_rpc_object])
+    tr.deadlock = out.deadlock or ("step budget exceeded" if out.budget else None)
+    tr.error = out.error
+    tr.calls = out.value
+    return tr
+
+
+def _done_thread(t) -> bool:
+    return getattr(t, "finished", False)
+
+
+def oracle_rx(spec: dict, tr: Trace):
+    tag = f"remove||{spec['other']}"
+    if tr.deadlock is not None:
+        return [(f"rx:hang:{tag}", f"{tag} of one name never completed: {tr.deadlock[:300]}", 0)]
+    res = tr.calls
+    bad = []
+    if any(o != "ok" for o in res["setup"]):
+        bad.append(("rx:setup-fails", f"{res['setup']}", 0))
+    st = parse_state(res["mid"])
+    mp = dict(e.split(":") for e in _lst(st["map"]))
+    hs = dict(e.split(":") for e in _lst(st["h"]))
+    live = {e.split(":")[0] for e in _lst(st["m"])}
+    if "-" in mp.values():
+        bad.append((f"rx:reservation-left:{tag}", f"after {tag}: {res['mid']} (remove: {res['remove']}, other: {res['other']})", 0))
+    if mp != hs:
+        bad.append((f"rx:name-not-bound-to-registered-object:{tag}",
+                    f"after {tag}: object map {st['map']} vs handler map {st['h']} (remove: {res['remove']}, other: {res['other']})", 0))
+    if any(v != "-" and v not in live for v in mp.values()):
+        bad.append((f"rx:name-bound-to-dead-object:{tag}", f"{res['mid']}", 0))
+    if "stray" in st:
+        bad.append((f"rx:stray-thread:{tag}", f"{res['mid']}", 0))
+    if spec["other"].startswith("make") and res["other"] != "ok" and ("1" in mp) != False and res["remove"] == "ok" and "1" in mp:
+        bad.append((f"rx:refused-make-left-something:{tag}", f"make refused ({res['other']}) but the name is taken: {res['mid']}", 0))
+    if res["stop"] != "ok":
+        bad.append((f"rx:stop-raises:{res['stop'][4:]}", f"stop() after {tag} raised {res['stop']}; before stop: {res['mid']}", 0))
+    if res["thr"] != (0, 0, 0) or res["stray"]:
+        bad.append((f"rx:stop-leaves-threads:{tag}", f"threads after stop(): {res['thr']}{res['stray']}; {res['end']}", 0))
+    for mid in res["constructed"]:
+        if res["relc"].get(mid, 0) != 1:
+            bad.append((f"rx:release-count:{tag}", f"object of manager {mid} released {res['relc'].get(mid, 0)} times", 0))
+    if res["probe"] != "ok":
+        bad.append(("rx:cannot-start-again", f"{res['probe']}", 0))
+    return bad
+
+
 REQ_KINDS = ["get_name", "lock", "lock_token", "unlock", "unlock_token", "force_unlock", "is_locked"]
 QUEUE_SPECS = [
     {"local": ["lock", "is_locked", "get_name"], "peer": [], "action": "remove"},
@@ -1867,6 +2002,70 @@ REAL_SPECS = [
     {"incoming": 2, "outgoing": 0, "first": "server", "failed": ["out_fail"], "failed_between": ["rst", "rst"]},
     {"incoming": 1, "outgoing": 1, "first": "client", "failed": ["rst", "garbage"], "failed_between": ["garbage"]},
 ]
+
+
+def run_real_badport(port: int, timeout: float = 20.0) -> dict:
+    """real sockets: a tcp_server_port the OS cannot bind (out of range -> OverflowError, not OSError): start() must raise and
+    leave no thread; a fresh context starts afterwards"""
+    res = {"spec": {"badport": port, "first": "server", "incoming": 0, "outgoing": 0}, "steps": []}
+
+    def body():
+        from qmi.core.context import QMI_Context
+        from qmi.core.config_defs import CfgQmi, CfgContext
+        base = set(_rt.enumerate())
+        c = QMI_Context("c1", CfgQmi(contexts={"c1": CfgContext(tcp_server_port=port)}))
+        try:
+            c.start()
+            res["start"] = "ok"
+            c.stop()
+        except BaseException as e:  # noqa
+            res["start"] = type(e).__name__
+        res["router_thread_left"] = [type(t).__name__ for t in _rt.enumerate()
+                                     if t not in base and type(t).__name__ == "_EventDrivenThread" and t.is_alive()]
+        try:
+            c2 = QMI_Context("c1", CfgQmi(contexts={"c1": CfgContext(tcp_server_port=0)}))
+            c2.start()
+            c2.stop()
+            res["restart"] = "ok"
+        except BaseException as e:  # noqa
+            res["restart"] = f"{type(e).__name__}: {e}"
+        # the never-started context keeps its internal $context object (as any constructed, unstarted context does): retire it
+        try:
+            c._discard()
+        except BaseException:  # noqa
+            pass
+
+    def guarded():
+        try:
+            body()
+        except BaseException as e:  # noqa
+            res["error"] = f"{type(e).__name__}: {e}"
+    import logging
+    prev = logging.root.manager.disable
+    logging.disable(logging.CRITICAL)
+    try:
+        th = _rt.Thread(target=guarded, daemon=True)
+        th.start()
+        th.join(timeout)
+        res["hang"] = th.is_alive()
+    finally:
+        logging.disable(prev)
+    return res
+
+
+def oracle_real_badport(res: dict):
+    port = res["spec"]["badport"]
+    if res.get("hang") or "error" in res:
+        return [(f"real:badport:error", f"tcp_server_port={port}: {res.get('error', 'hang')}", 0)]
+    bad = []
+    if res.get("start") == "ok":
+        return bad
+    if res.get("router_thread_left"):
+        bad.append((f"real:failed-start-residue:context:tcp-port-unbindable",
+                    f"start() with tcp_server_port={port} raised {res['start']} and left {res['router_thread_left']} alive", 0))
+    if res.get("restart") != "ok":
+        bad.append(("real:cannot-start-again:after-unbindable-port", f"{res.get('restart')}", 0))
+    return bad
 
 
 def run_real(spec: dict, timeout: float = 30.0) -> dict:
@@ -2354,8 +2553,8 @@ def gen_history(rng, max_ops: int):
     ops = []
     for _ in range(rng.choice([0, 0, 0, 1, 2])):
         ops.append(gen_op(rng))
-    tcpF = int(cfg_tcp and rng.random() < 0.18)
-    udpF = int(rng.random() < 0.08)
+    tcpF = rng.choice(list(START_EXC)) if (cfg_tcp and rng.random() < 0.18) else 0
+    udpF = rng.choice(list(START_EXC)) if rng.random() < 0.08 else 0
     ops.append(["start", tcpF, udpF])
     if tcpF or udpF:
         for _ in range(rng.choice([0, 1, 2])):
@@ -2383,8 +2582,8 @@ def gen_singleton(rng, max_ops: int):
             ops.append(rng.choice([["qstop"], ["qcontext"], ["q", gen_make(rng)], ["q", ["get", 1, "rpc"]]]))
         cfg_tcp = rng.random() < 0.7
         peers = reach[:rng.choice([0, 0, 1, 2])]
-        tcpF = int(cfg_tcp and rng.random() < 0.3)
-        udpF = int(rng.random() < 0.1)
+        tcpF = rng.choice(list(START_EXC)) if (cfg_tcp and rng.random() < 0.3) else 0
+        udpF = rng.choice(list(START_EXC)) if rng.random() < 0.1 else 0
         valid = rng.random() > 0.07
         logF = rng.choice(["logdir", "loglevel", "console", "loglevels"]) if rng.random() < 0.12 else 0
         ops.append(["qstart", valid, cfg_tcp, tcpF, udpF, peers, logF] if logF else ["qstart", valid, cfg_tcp, tcpF, udpF, peers])
@@ -2735,6 +2934,8 @@ def run_case(case: dict) -> Trace:
     if k == "mm":
         return run_mm(case["seed"], case["cfg_tcp"], case["pop"], case["mk1"], case["mk2"], policy=case.get("policy", "weighted"),
                       change_points=case.get("change_points"))
+    if k == "rx":
+        return run_rx(case["seed"], case["spec"], policy=case.get("policy", "weighted"), change_points=case.get("change_points"))
     if k == "queued":
         return run_queued(case["seed"], case["spec"], policy=case.get("policy", "weighted"), change_points=case.get("change_points"))
     if k == "acts":
@@ -2757,6 +2958,8 @@ def oracle(case: dict, tr: Trace):
         return oracle_acts(case["spec"], tr)
     if case["kind"] == "queued":
         return oracle_queued(case["spec"], tr)
+    if case["kind"] == "rx":
+        return oracle_rx(case["spec"], tr)
     return {"hist": oracle_history, "single": oracle_singleton, "conc": oracle_conc}[case["kind"]](tr)
 
 
@@ -2798,6 +3001,10 @@ DIRECTED_HIST = [
              ["tstart", 1], ["tjoin", 1], ["remove", 1], ["make", "instr", 1, "a", 0, 0, "loop", 0], ["make", "rpc", 1, "a", 0, 0, "loop", 0],
              ["remove", 1], ["call", 1], ["make", "rpc", 1, "a", 1, 0, "loop", 0], ["make", "rpc", 1, "a", 0, 0, "loop", 0], ["stop"], ["probe"]]),
     (True, [["make", "rpc", 1, "a", 0, 0, "loop", 0], ["get", 1, "rpc"], ["stop"], ["start", 0, 0], ["addh", "base"], ["stop"], ["stop"], ["probe"]]),
+    # every start step failing with every exception kind (OSError, OverflowError, ValueError, RuntimeError, a QMI exception,
+    # KeyboardInterrupt, SystemExit): nothing may be left, the same context can be started afterwards
+    (True, [op for code in START_EXC for op in (["start", code, 0], ["start", 0, code])] + [["start", 0, 0], ["stop"], ["probe"]]),
+    (False, [["start", 0, code] for code in START_EXC] + [["probe"]]),
     # constructors of every object kind failing with every exception kind (Exception and non-Exception BaseException): the make
     # raises, nothing is left, the name is free at once; release steps and stop handlers raising every kind
     (False, [["start", 0, 0]] +
@@ -2836,6 +3043,11 @@ DIRECTED_SINGLE_LOG = [
     [["qstart", True, cfg_tcp, 0, 0, [], logF], ["qcontext"], ["qstop"], ["qprobe", cfg_tcp]]
     for logF, cfg_tcp in (("logdir", True), ("loglevel", False), ("console", True), ("loglevels", False))
 ] + [[["qstart", False, False, 0, 0, [], "loglevel"], ["qstart", True, False, 0, 0, [], "logdir"], ["qstart", True, False, 0, 0, []], ["qstop"], ["qprobe", False]]]
+
+DIRECTED_SINGLE_START = [
+    [op for code in START_EXC for op in (["qstart", True, True, code, 0, []], ["qstart", True, True, 0, code, [True]], ["qcontext"])] +
+    [["qstop"], ["qprobe", True]],
+]
 
 DIRECTED_SINGLE = [
     [["qstart", True, True, 0, 0, []]] + [["q", ["addh", "exc", sh]] for sh in CALLABLE_SHAPES] +
@@ -3083,6 +3295,11 @@ class C12(Prop):
         return self._oracle_only(res, [{"kind": "acts", "seed": seed0 + 100 * i + sd, "spec": spec, "policy": "pct" if sd % 3 == 2 else "weighted"}
                                        for i, spec in enumerate(ACT_SPECS) for sd in range(seeds)], "acts")
 
+    def _rx(self, res: Result, seeds: int, seed0: int) -> int:
+        """remove_rpc_object racing make / remove / get / call of the same name (oracle only)"""
+        return self._oracle_only(res, [{"kind": "rx", "seed": seed0 + 100 * i + sd, "spec": spec, "policy": "pct" if sd % 3 == 2 else "weighted"}
+                                       for i, spec in enumerate(RX_SPECS) for sd in range(seeds if spec["gate"] is None else min(seeds, 2))], "rx")
+
     def _real(self, res: Result, rounds: int) -> int:
         """real loopback sockets: fixed port, established peer connections at stop, immediate restart; SO_REUSEADDR before bind"""
         n = 0
@@ -3101,6 +3318,16 @@ class C12(Prop):
             res.failures.append(Failure("real:connection-managed-before-handshake",
                                         "_SocketManager.add_incoming_connection registers the connection before the handshake was sent: a failed "
                                         "attempt can leave a closed connection in the managed list", {"kind": "real-ast2"}))
+        for port in (65536, 70000, -1):
+            r = run_real_badport(port)
+            n += 1
+            res.traces_validated += 1
+            res.count(f"real_unbindable_port_{port}_{r.get('start')}")
+            res.note_case(("real-badport", port), nontrivial=True)
+            for sig, det, _i in oracle_real_badport(r):
+                if not self._seen.get(sig):
+                    self._seen[sig] = 1
+                    res.failures.append(Failure(sig, f"{sig}: {det}", {"kind": "real-badport", "port": port, "expect": sig}))
         for _ in range(rounds):
             for spec in REAL_SPECS:
                 r = run_real(spec)
@@ -3175,7 +3402,7 @@ class C12(Prop):
         for cfg_tcp, ops in DIRECTED_HIST:
             case = {"kind": "hist", "seed": seed0 + n, "cfg_tcp": cfg_tcp, "ops": ops}
             self._add(res, batch, case, run_case(case)); n += 1
-        for ops in DIRECTED_SINGLE + DIRECTED_SINGLE_LOG:
+        for ops in DIRECTED_SINGLE + DIRECTED_SINGLE_LOG + DIRECTED_SINGLE_START:
             case = {"kind": "single", "seed": seed0 + n, "ops": ops}
             self._add(res, batch, case, run_case(case)); n += 1
         for _ in range(ctx.scale(1250, 12000)):
@@ -3208,6 +3435,7 @@ class C12(Prop):
         n += self._busy(res, ctx, seeds=ctx.scale(6, 60), seed0=seed0 + 700000, stride=ctx.scale(2, 1))
         n += self._acts(res, seeds=ctx.scale(6, 40), seed0=seed0 + 800000)
         n += self._queued(res, seeds=ctx.scale(6, 40), seed0=seed0 + 850000)
+        n += self._rx(res, seeds=ctx.scale(6, 40), seed0=seed0 + 870000)
         n += self._real(res, rounds=ctx.scale(1, 5))
         ctx.log(f"busy objects, acting release steps, real sockets done: {n} scenarios")
         self._diff(res, batch)
@@ -3264,6 +3492,7 @@ class C12(Prop):
         self._busy(res, ctx, seeds=30, seed0=seed0 + 950000, stride=1)
         self._acts(res, seeds=30, seed0=seed0 + 960000)
         self._queued(res, seeds=30, seed0=seed0 + 970000)
+        self._rx(res, seeds=20, seed0=seed0 + 980000)
         self._real(res, rounds=3)
         return res
 
@@ -3271,6 +3500,9 @@ class C12(Prop):
         if rp.get("kind") == "real-ast":
             ok = reuse_before_bind().get(rp["fn"], True)
             return None if ok else Failure(f"real:reuseaddr-set-after-bind:{rp['fn']}", "address-reuse option set after bind()", rp)
+        if rp.get("kind") == "real-badport":
+            bad = oracle_real_badport(run_real_badport(rp["port"]))
+            return Failure(bad[0][0], f"{bad[0][0]}: {bad[0][1]}", rp) if bad else None
         if rp.get("kind") == "real-ast2":
             return None if managed_after_handshake() else Failure("real:connection-managed-before-handshake", "registered before the handshake", rp)
         if rp.get("kind") == "real":
@@ -3300,7 +3532,7 @@ def i_prev_state(tr: Trace, ob):
 
 def _short(case: dict) -> str:
     c = dict(case)
-    if c.get("kind") in ("busy", "acts", "queued"):
+    if c.get("kind") in ("busy", "acts", "queued", "rx"):
         return repr({k: v for k, v in c.items()})
     if c.get("kind") == "calls":
         sp = c["spec"]
